@@ -187,6 +187,10 @@ def run(cx, out):
                 sv = sym.vstr(sums[0][2])
                 if 'wrapping_add' in sv or 'saturating_add' in sv:
                     why2.append('count addition is not checked')
+                # the number of items enters the sum through a conversion whose failure propagates: a fallback value
+                # (`try_from(n).unwrap_or(u32::MAX)`), a clamp or a cast would add a wrong number for n > u32::MAX
+                if any(w in sv for w in ('unwrap_or', 'saturating_', 'wrapping_', 'min(', 'clamp(', ' as u32')):
+                    why2.append('the number of appended items enters the sum through a saturating / defaulting conversion instead of a checked one')
                 if not ('try_from(len(into_iter(iter)))' in sv or 'len(into_iter(iter))' in sv):
                     why2.append('added count is not the number of items of the iterator')
             inner = [x for x in sym.walk(ne) if x[0] == 'alt']
